@@ -125,7 +125,7 @@ func special(c *drv.Ctx) {
 			w.be.mu.Lock()
 			w.be.silent = false
 			w.be.mu.Unlock()
-			v, inc2 := w.runSeq([]reqCase{{"GET", "/after", nil, "none", 200, "cl", 5}})
+			v, inc2 := w.runSeq([]reqCase{{"GET", "/after", nil, "none", 200, "cl", 5, false}})
 			if v != "" {
 				c.Violate("special", "special:silent:after", "after a gateway timeout the next request fails: "+v, "silent")
 			} else if inc2 != "" {
